@@ -1,7 +1,11 @@
 package main
 
 import (
+	"fmt"
+	"net/netip"
+	"strings"
 	"sync/atomic"
+	"time"
 
 	"github.com/miekg/dns"
 	"github.com/semihalev/sdns/zzverif/authsim"
@@ -18,6 +22,21 @@ type attackKind struct {
 	NeedV6   func(variant string) bool
 	Trigger  func(variant string) (string, uint16)
 	Install  func(w *world, c *CaseSpec)
+
+	// Attack, when set, replaces the default attack phase (one trigger question,
+	// judged) — used by the kinds that need a second client query inside a
+	// window held open by an authsim gate. It returns the trigger question and
+	// its reply, both already judged.
+	Attack func(cr *caseRun) (question, *dns.Msg)
+	// Deep: the case needs the corp.test./a.b.corp.test./partner.test. topology.
+	Deep bool
+	// Unsigned: the attacker's zone must not be signed (the scripted referral
+	// carries no DS / DS-denial, which a signed parent zone would have to supply).
+	Unsigned bool
+	// QMin, when set, fixes cfg.QnameMinLevel per variant.
+	QMin func(variant string) (int, bool)
+	// SigVariant: violation signatures of this kind carry the variant (narrower).
+	SigVariant bool
 }
 
 func q(name string, t uint16) func(string) (string, uint16) {
@@ -93,344 +112,395 @@ func nsHostFor(target string) string {
 	return "sink-evil-marker.evil.test."
 }
 
-var kinds = []*attackKind{
-	// ---------------------------------------------------------------- spoof --
-	{
-		Name: "spoof-wrong-id", Family: "spoof", Variants: []string{"x1", "x3", "x1+poison"},
-		Trigger: q("www.evil.test.", dns.TypeA),
-		Install: func(w *world, c *CaseSpec) {
-			n := 1
-			if c.Variant == "x3" {
-				n = 3
-			}
-			a := authsim.Action{Label: c.Label}
-			for i := 0; i < n; i++ {
-				a.Pre = append(a.Pre, authsim.PreWrongIDEvil)
-			}
-			a.PreTamper = func(q, m *dns.Msg) *dns.Msg {
-				out := replyTo(q, true)
-				out.Answer = []dns.RR{w.evilRR(q.Question[0].Name, q.Question[0].Qtype)}
-				if c.Variant == "x1+poison" {
-					out.Extra = w.poison(c.V6)
+var kinds []*attackKind
+
+func init() {
+	kinds = []*attackKind{
+		// ---------------------------------------------------------------- spoof --
+		{
+			Name: "spoof-wrong-id", Family: "spoof", Variants: []string{"x1", "x3", "x1+poison"},
+			Trigger: q("www.evil.test.", dns.TypeA),
+			Install: func(w *world, c *CaseSpec) {
+				n := 1
+				if c.Variant == "x3" {
+					n = 3
 				}
-				keepOPT(q, out)
-				return out
-			}
-			onAll(w, authsim.Rule{Name: "www.evil.test.", Transport: "udp", Action: a})
-		},
-	},
-	{
-		Name: "spoof-wrong-question", Family: "spoof",
-		Variants: []string{"qname-victim", "qname-sibling", "qtype", "qclass", "none", "two"},
-		Trigger:  q("www.evil.test.", dns.TypeA),
-		Install: func(w *world, c *CaseSpec) {
-			a := authsim.Action{Label: c.Label, Pre: []authsim.PreKind{authsim.PreWrongQEvil}}
-			a.PreTamper = func(q, _ *dns.Msg) *dns.Msg { return wrongQuestionReply(w, c.Variant, q) }
-			onAll(w, authsim.Rule{Name: "www.evil.test.", Transport: "udp", Action: a})
-		},
-	},
-	{
-		Name: "spoof-tcp-wrong-id", Family: "spoof", Variants: []string{"id+1"},
-		Trigger: q("www.evil.test.", dns.TypeA),
-		Install: func(w *world, c *CaseSpec) {
-			onAll(w, authsim.Rule{Name: "www.evil.test.", Action: authsim.Action{Label: c.Label, Truncate: true, TCP: authsim.TCPAnswer,
-				Tamper: func(q, honest *dns.Msg) *dns.Msg {
+				a := authsim.Action{Label: c.Label}
+				for i := 0; i < n; i++ {
+					a.Pre = append(a.Pre, authsim.PreWrongIDEvil)
+				}
+				a.PreTamper = func(q, m *dns.Msg) *dns.Msg {
 					out := replyTo(q, true)
 					out.Answer = []dns.RR{w.evilRR(q.Question[0].Name, q.Question[0].Qtype)}
+					if c.Variant == "x1+poison" {
+						out.Extra = w.poison(c.V6)
+					}
 					keepOPT(q, out)
-					out.Id = q.Id + 1
 					return out
-				}}})
-		},
-	},
-	{
-		Name: "spoof-tcp-wrong-question", Family: "spoof", Variants: []string{"qname-victim", "qtype", "none"},
-		Trigger: q("www.evil.test.", dns.TypeA),
-		Install: func(w *world, c *CaseSpec) {
-			onAll(w, authsim.Rule{Name: "www.evil.test.", Action: authsim.Action{Label: c.Label, Truncate: true, TCP: authsim.TCPAnswer,
-				Tamper: func(q, honest *dns.Msg) *dns.Msg { return wrongQuestionReply(w, c.Variant, q) }}})
-		},
-	},
-	// --------------------------------------------------------------- answer --
-	{
-		Name: "answer-foreign-rrset", Family: "answer", Variants: []string{"append-a", "prepend-a", "append-mx", "append-aaaa"},
-		Trigger: func(v string) (string, uint16) {
-			switch v {
-			case "append-mx":
-				return "www.evil.test.", dns.TypeMX
-			case "append-aaaa":
-				return "www.evil.test.", dns.TypeAAAA
-			}
-			return "www.evil.test.", dns.TypeA
-		},
-		Install: func(w *world, c *CaseSpec) {
-			onAll(w, authsim.Rule{Name: "www.evil.test.", Action: authsim.Tamper(c.Label, func(q, honest *dns.Msg) *dns.Msg {
-				if len(honest.Answer) == 0 {
-					return honest
 				}
-				if c.Variant == "prepend-a" {
-					honest.Answer = append(w.poison(c.V6), honest.Answer...)
-				} else {
-					honest.Answer = append(honest.Answer, w.poison(c.V6)...)
+				onAll(w, authsim.Rule{Name: "www.evil.test.", Transport: "udp", Action: a})
+			},
+		},
+		{
+			Name: "spoof-wrong-question", Family: "spoof",
+			Variants: []string{"qname-victim", "qname-sibling", "qtype", "qclass", "none", "two"},
+			Trigger:  q("www.evil.test.", dns.TypeA),
+			Install: func(w *world, c *CaseSpec) {
+				a := authsim.Action{Label: c.Label, Pre: []authsim.PreKind{authsim.PreWrongQEvil}}
+				a.PreTamper = func(q, _ *dns.Msg) *dns.Msg { return wrongQuestionReply(w, c.Variant, q) }
+				onAll(w, authsim.Rule{Name: "www.evil.test.", Transport: "udp", Action: a})
+			},
+		},
+		{
+			Name: "spoof-tcp-wrong-id", Family: "spoof", Variants: []string{"id+1"},
+			Trigger: q("www.evil.test.", dns.TypeA),
+			Install: func(w *world, c *CaseSpec) {
+				onAll(w, authsim.Rule{Name: "www.evil.test.", Action: authsim.Action{Label: c.Label, Truncate: true, TCP: authsim.TCPAnswer,
+					Tamper: func(q, honest *dns.Msg) *dns.Msg {
+						out := replyTo(q, true)
+						out.Answer = []dns.RR{w.evilRR(q.Question[0].Name, q.Question[0].Qtype)}
+						keepOPT(q, out)
+						out.Id = q.Id + 1
+						return out
+					}}})
+			},
+		},
+		{
+			Name: "spoof-tcp-wrong-question", Family: "spoof", Variants: []string{"qname-victim", "qtype", "none"},
+			Trigger: q("www.evil.test.", dns.TypeA),
+			Install: func(w *world, c *CaseSpec) {
+				onAll(w, authsim.Rule{Name: "www.evil.test.", Action: authsim.Action{Label: c.Label, Truncate: true, TCP: authsim.TCPAnswer,
+					Tamper: func(q, honest *dns.Msg) *dns.Msg { return wrongQuestionReply(w, c.Variant, q) }}})
+			},
+		},
+		// --------------------------------------------------------------- answer --
+		{
+			Name: "answer-foreign-rrset", Family: "answer", Variants: []string{"append-a", "prepend-a", "append-mx", "append-aaaa"},
+			Trigger: func(v string) (string, uint16) {
+				switch v {
+				case "append-mx":
+					return "www.evil.test.", dns.TypeMX
+				case "append-aaaa":
+					return "www.evil.test.", dns.TypeAAAA
 				}
-				return honest
-			})})
-		},
-	},
-	{
-		Name: "answer-cname-poison", Family: "answer", Variants: []string{"alias-a", "alias-aaaa", "mxalias-mx", "chain-a"},
-		Trigger: func(v string) (string, uint16) {
-			switch v {
-			case "alias-aaaa":
-				return "alias.evil.test.", dns.TypeAAAA
-			case "mxalias-mx":
-				return "mxalias.evil.test.", dns.TypeMX
-			case "chain-a":
-				return "a1.evil.test.", dns.TypeA
-			}
-			return "alias.evil.test.", dns.TypeA
-		},
-		Install: func(w *world, c *CaseSpec) {
-			onAll(w, authsim.Rule{Name: "*.evil.test.", Action: authsim.Tamper(c.Label, func(q, honest *dns.Msg) *dns.Msg {
-				// the in-zone alias records are the attacker's to publish; the
-				// target's records are not
-				target := ""
-				for _, rr := range honest.Answer {
-					if cn, ok := rr.(*dns.CNAME); ok && !zm.IsSub(zEvil, zm.Canon(cn.Target)) {
-						target = cn.Target
+				return "www.evil.test.", dns.TypeA
+			},
+			Install: func(w *world, c *CaseSpec) {
+				onAll(w, authsim.Rule{Name: "www.evil.test.", Action: authsim.Tamper(c.Label, func(q, honest *dns.Msg) *dns.Msg {
+					if len(honest.Answer) == 0 {
+						return honest
 					}
-				}
-				if target == "" {
-					return honest
-				}
-				honest.Answer = append(honest.Answer, w.evilRR(target, q.Question[0].Qtype))
-				return honest
-			})})
-		},
-	},
-	{
-		Name: "answer-dname-poison", Family: "answer", Variants: []string{"a", "aaaa"},
-		Trigger: func(v string) (string, uint16) {
-			if v == "aaaa" {
-				return "www.dn.evil.test.", dns.TypeAAAA
-			}
-			return "www.dn.evil.test.", dns.TypeA
-		},
-		Install: func(w *world, c *CaseSpec) {
-			onAll(w, authsim.Rule{Name: "*.dn.evil.test.", Action: authsim.Tamper(c.Label, func(q, honest *dns.Msg) *dns.Msg {
-				target := ""
-				for _, rr := range honest.Answer {
-					if cn, ok := rr.(*dns.CNAME); ok && !zm.IsSub(zEvil, zm.Canon(cn.Target)) {
-						target = cn.Target
+					if c.Variant == "prepend-a" {
+						honest.Answer = append(w.poison(c.V6), honest.Answer...)
+					} else {
+						honest.Answer = append(honest.Answer, w.poison(c.V6)...)
 					}
-				}
-				if target == "" {
 					return honest
-				}
-				honest.Answer = append(honest.Answer, w.evilRR(target, q.Question[0].Qtype))
-				return honest
-			})})
-		},
-	},
-	{
-		// a DNAME record owned OUTSIDE evil.test. in the answer section: above
-		// the zone (it would redirect the question itself) or beside it (dead
-		// weight that the cache's "keep every DNAME" rule could retain)
-		Name: "answer-foreign-dname", Family: "answer", Variants: []string{"upward-tld", "sideways-victim"},
-		Trigger: q("www.evil.test.", dns.TypeA),
-		Install: func(w *world, c *CaseSpec) {
-			onAll(w, authsim.Rule{Name: "www.evil.test.", Action: authsim.Tamper(c.Label, func(q, honest *dns.Msg) *dns.Msg {
-				if len(honest.Answer) == 0 {
-					return honest
-				}
-				dn := func(owner string) dns.RR {
-					return &dns.DNAME{Hdr: hdr(owner, dns.TypeDNAME, evilTTL), Target: "dname.evil-marker.invalid."}
-				}
-				if c.Variant == "sideways-victim" {
-					honest.Answer = append(honest.Answer, dn(zVictim))
-					return honest
-				}
-				// no synthesized CNAME: that record would be owned inside
-				// evil.test. and therefore the attacker's to publish
-				honest.Answer = []dns.RR{dn(zTLD)}
-				return honest
-			})})
-		},
-	},
-	// ------------------------------------------------------------ authority --
-	{
-		Name: "authority-positive", Family: "authority", Variants: []string{"to-evil", "to-sink"},
-		Trigger: q("www.evil.test.", dns.TypeA),
-		Install: func(w *world, c *CaseSpec) {
-			onAll(w, authsim.Rule{Name: "www.evil.test.", Action: authsim.Tamper(c.Label, func(q, honest *dns.Msg) *dns.Msg {
-				host := nsHostFor(c.Target)
-				honest.Ns = append(honest.Ns, nsRR(zVictim, host, dns.ClassINET), nsRR(zTLD, host, dns.ClassINET))
-				extra := append(glueFor(host, c.Target, c.V6), w.poison(c.V6)...)
-				honest.Extra = append(extra, honest.Extra...)
-				return honest
-			})})
-		},
-	},
-	{
-		Name: "authority-negative", Family: "authority", Variants: []string{"nodata", "nxdomain", "soa-foreign"},
-		Trigger: func(v string) (string, uint16) {
-			if v == "nodata" {
-				return "nodata.evil.test.", dns.TypeA
-			}
-			return "nx.evil.test.", dns.TypeA
-		},
-		Install: func(w *world, c *CaseSpec) {
-			name := "nx.evil.test."
-			if c.Variant == "nodata" {
-				name = "nodata.evil.test."
-			}
-			onAll(w, authsim.Rule{Name: name, Action: authsim.Tamper(c.Label, func(q, honest *dns.Msg) *dns.Msg {
-				host := nsHostFor(c.Target)
-				if c.Variant == "soa-foreign" {
-					honest.Ns = []dns.RR{w.evilSOA(zVictim)}
-				}
-				honest.Ns = append(honest.Ns, nsRR(zVictim, host, dns.ClassINET), nsRR(zTLD, host, dns.ClassINET))
-				extra := append(glueFor(host, c.Target, c.V6), w.poison(c.V6)...)
-				honest.Extra = append(extra, honest.Extra...)
-				return honest
-			})})
-		},
-	},
-	// ------------------------------------------------------------- referral --
-	{
-		Name: "referral-self", Family: "referral", Variants: []string{"self"},
-		Trigger: q(subTrigger, dns.TypeA),
-		Install: func(w *world, c *CaseSpec) {
-			installReferral(w, c, func(host string) []dns.RR { return []dns.RR{nsRR(zEvil, host, dns.ClassINET)} })
-		},
-	},
-	{
-		Name: "referral-upward", Family: "referral", Variants: []string{"tld", "root"},
-		Trigger: q(subTrigger, dns.TypeA),
-		Install: func(w *world, c *CaseSpec) {
-			owner := zTLD
-			if c.Variant == "root" {
-				owner = zRoot
-			}
-			installReferral(w, c, func(host string) []dns.RR { return []dns.RR{nsRR(owner, host, dns.ClassINET)} })
-		},
-	},
-	{
-		Name: "referral-sideways", Family: "referral", Variants: []string{"victim-apex", "victim-www"},
-		Trigger: q(subTrigger, dns.TypeA),
-		Install: func(w *world, c *CaseSpec) {
-			owner := zVictim
-			if c.Variant == "victim-www" {
-				owner = "www.victim.test."
-			}
-			installReferral(w, c, func(host string) []dns.RR { return []dns.RR{nsRR(owner, host, dns.ClassINET)} })
-		},
-	},
-	{
-		Name: "referral-mixed-owner", Family: "referral", Variants: []string{"valid-first", "victim-first", "tld-second", "class-mix"},
-		Trigger: q(subTrigger, dns.TypeA),
-		Install: func(w *world, c *CaseSpec) {
-			c.Target = "sink" // an accepted mixed referral must be visible at the sink
-			installReferral(w, c, func(host string) []dns.RR {
-				valid := nsRR("sub.evil.test.", host, dns.ClassINET)
-				switch c.Variant {
-				case "victim-first":
-					return []dns.RR{nsRR(zVictim, host, dns.ClassINET), valid}
-				case "tld-second":
-					return []dns.RR{valid, nsRR(zTLD, host, dns.ClassINET)}
-				case "class-mix":
-					return []dns.RR{valid, nsRR("sub.evil.test.", "sink2-evil-marker.evil.test.", dns.ClassCHAOS)}
-				}
-				return []dns.RR{valid, nsRR(zVictim, host, dns.ClassINET)}
-			})
-		},
-	},
-	{
-		Name: "referral-other-class", Family: "referral", Variants: []string{"chaos", "hesiod"},
-		Trigger: q(subTrigger, dns.TypeA),
-		Install: func(w *world, c *CaseSpec) {
-			c.Target = "sink"
-			class := uint16(dns.ClassCHAOS)
-			if c.Variant == "hesiod" {
-				class = dns.ClassHESIOD
-			}
-			installReferral(w, c, func(host string) []dns.RR { return []dns.RR{nsRR("sub.evil.test.", host, class)} })
-		},
-	},
-	{
-		Name: "referral-off-path", Family: "referral", Variants: []string{"sibling", "deeper-sibling"},
-		Trigger: q(subTrigger, dns.TypeA),
-		Install: func(w *world, c *CaseSpec) {
-			c.Target = "sink"
-			owner := "other.evil.test."
-			if c.Variant == "deeper-sibling" {
-				owner = "x.sub.evil.test."
-			}
-			installReferral(w, c, func(host string) []dns.RR { return []dns.RR{nsRR(owner, host, dns.ClassINET)} })
-		},
-	},
-	// ----------------------------------------------------------------- glue --
-	{
-		Name: "glue-out-of-zone", Family: "glue", Variants: []string{"victim-ns", "tld-ns", "victim-new"},
-		Trigger: q(subTrigger, dns.TypeA),
-		Install: func(w *world, c *CaseSpec) {
-			host := "ns1.victim.test."
-			switch c.Variant {
-			case "tld-ns":
-				host = "ns1.test."
-			case "victim-new":
-				host = "gluehost.victim.test."
-			}
-			onAll(w, authsim.Rule{Name: "*.sub.evil.test.", Action: authsim.Tamper(c.Label, func(q, _ *dns.Msg) *dns.Msg {
-				return referral(q, []dns.RR{nsRR("sub.evil.test.", host, dns.ClassINET)}, glueFor(host, "sink", c.V6))
-			})})
-		},
-	},
-	{
-		Name: "glue-loopback", Family: "glue", Variants: []string{"127.0.0.1", "127.0.0.53", "::1", "::ffff:127.0.0.1"},
-		NeedV6:  func(v string) bool { return v == "::1" || v == "::ffff:127.0.0.1" },
-		Trigger: q(subTrigger, dns.TypeA),
-		Install: func(w *world, c *CaseSpec) { installUnusableGlue(w, c, c.Variant) },
-	},
-	{
-		Name: "glue-local-interface", Family: "glue", Variants: []string{"v4", "v6"},
-		NeedV6:  func(v string) bool { return v == "v6" },
-		Trigger: q(subTrigger, dns.TypeA),
-		Install: func(w *world, c *CaseSpec) {
-			addr := ""
-			switch {
-			case c.Variant == "v4" && w.local4 != nil:
-				addr = w.local4.String()
-			case c.Variant == "v6" && w.local6 != nil:
-				addr = w.local6.String()
-			}
-			if addr == "" {
-				c.Note = "no local interface address of that family: loopback used"
-				addr = "127.0.0.1"
-				if c.Variant == "v6" {
-					addr = "::1"
-				}
-			}
-			installUnusableGlue(w, c, addr)
-		},
-	},
-	{
-		Name: "glue-extra-additional", Family: "glue", Variants: []string{"poison"},
-		Trigger: q(subTrigger, dns.TypeA),
-		Install: func(w *world, c *CaseSpec) {
-			var sent atomic.Int32
-			host := "ns.sub.evil.test."
-			onAll(w, authsim.Rule{Name: "*.sub.evil.test.",
-				Match: func(p *authsim.Packet) bool { return p.QNameL != host && sent.Add(1) == 1 },
-				Action: authsim.Tamper(c.Label, func(q, _ *dns.Msg) *dns.Msg {
-					// a VALID referral (in-bailiwick NS host, glue = the evil
-					// server's real address) whose additional section also
-					// carries records nobody asked for
-					return referral(q, []dns.RR{nsRR("sub.evil.test.", host, dns.ClassINET)},
-						append(glueFor(host, "evil", c.V6), w.poison(c.V6)...))
 				})})
+			},
 		},
-	},
+		{
+			Name: "answer-cname-poison", Family: "answer", Variants: []string{"alias-a", "alias-aaaa", "mxalias-mx", "chain-a"},
+			Trigger: func(v string) (string, uint16) {
+				switch v {
+				case "alias-aaaa":
+					return "alias.evil.test.", dns.TypeAAAA
+				case "mxalias-mx":
+					return "mxalias.evil.test.", dns.TypeMX
+				case "chain-a":
+					return "a1.evil.test.", dns.TypeA
+				}
+				return "alias.evil.test.", dns.TypeA
+			},
+			Install: func(w *world, c *CaseSpec) {
+				onAll(w, authsim.Rule{Name: "*.evil.test.", Action: authsim.Tamper(c.Label, func(q, honest *dns.Msg) *dns.Msg {
+					// the in-zone alias records are the attacker's to publish; the
+					// target's records are not
+					target := ""
+					for _, rr := range honest.Answer {
+						if cn, ok := rr.(*dns.CNAME); ok && !zm.IsSub(zEvil, zm.Canon(cn.Target)) {
+							target = cn.Target
+						}
+					}
+					if target == "" {
+						return honest
+					}
+					honest.Answer = append(honest.Answer, w.evilRR(target, q.Question[0].Qtype))
+					return honest
+				})})
+			},
+		},
+		{
+			Name: "answer-dname-poison", Family: "answer", Variants: []string{"a", "aaaa"},
+			Trigger: func(v string) (string, uint16) {
+				if v == "aaaa" {
+					return "www.dn.evil.test.", dns.TypeAAAA
+				}
+				return "www.dn.evil.test.", dns.TypeA
+			},
+			Install: func(w *world, c *CaseSpec) {
+				onAll(w, authsim.Rule{Name: "*.dn.evil.test.", Action: authsim.Tamper(c.Label, func(q, honest *dns.Msg) *dns.Msg {
+					target := ""
+					for _, rr := range honest.Answer {
+						if cn, ok := rr.(*dns.CNAME); ok && !zm.IsSub(zEvil, zm.Canon(cn.Target)) {
+							target = cn.Target
+						}
+					}
+					if target == "" {
+						return honest
+					}
+					honest.Answer = append(honest.Answer, w.evilRR(target, q.Question[0].Qtype))
+					return honest
+				})})
+			},
+		},
+		{
+			// a DNAME record owned OUTSIDE evil.test. in the answer section: above
+			// the zone (it would redirect the question itself) or beside it (dead
+			// weight that the cache's "keep every DNAME" rule could retain)
+			Name: "answer-foreign-dname", Family: "answer", Variants: []string{"upward-tld", "sideways-victim"},
+			Trigger: q("www.evil.test.", dns.TypeA),
+			Install: func(w *world, c *CaseSpec) {
+				onAll(w, authsim.Rule{Name: "www.evil.test.", Action: authsim.Tamper(c.Label, func(q, honest *dns.Msg) *dns.Msg {
+					if len(honest.Answer) == 0 {
+						return honest
+					}
+					dn := func(owner string) dns.RR {
+						return &dns.DNAME{Hdr: hdr(owner, dns.TypeDNAME, evilTTL), Target: "dname.evil-marker.invalid."}
+					}
+					if c.Variant == "sideways-victim" {
+						honest.Answer = append(honest.Answer, dn(zVictim))
+						return honest
+					}
+					// no synthesized CNAME: that record would be owned inside
+					// evil.test. and therefore the attacker's to publish
+					honest.Answer = []dns.RR{dn(zTLD)}
+					return honest
+				})})
+			},
+		},
+		// ------------------------------------------------------------ authority --
+		{
+			Name: "authority-positive", Family: "authority", Variants: []string{"to-evil", "to-sink"},
+			Trigger: q("www.evil.test.", dns.TypeA),
+			Install: func(w *world, c *CaseSpec) {
+				onAll(w, authsim.Rule{Name: "www.evil.test.", Action: authsim.Tamper(c.Label, func(q, honest *dns.Msg) *dns.Msg {
+					host := nsHostFor(c.Target)
+					honest.Ns = append(honest.Ns, nsRR(zVictim, host, dns.ClassINET), nsRR(zTLD, host, dns.ClassINET))
+					extra := append(glueFor(host, c.Target, c.V6), w.poison(c.V6)...)
+					honest.Extra = append(extra, honest.Extra...)
+					return honest
+				})})
+			},
+		},
+		{
+			Name: "authority-negative", Family: "authority", Variants: []string{"nodata", "nxdomain", "soa-foreign"},
+			Trigger: func(v string) (string, uint16) {
+				if v == "nodata" {
+					return "nodata.evil.test.", dns.TypeA
+				}
+				return "nx.evil.test.", dns.TypeA
+			},
+			Install: func(w *world, c *CaseSpec) {
+				name := "nx.evil.test."
+				if c.Variant == "nodata" {
+					name = "nodata.evil.test."
+				}
+				onAll(w, authsim.Rule{Name: name, Action: authsim.Tamper(c.Label, func(q, honest *dns.Msg) *dns.Msg {
+					host := nsHostFor(c.Target)
+					if c.Variant == "soa-foreign" {
+						honest.Ns = []dns.RR{w.evilSOA(zVictim)}
+					}
+					honest.Ns = append(honest.Ns, nsRR(zVictim, host, dns.ClassINET), nsRR(zTLD, host, dns.ClassINET))
+					extra := append(glueFor(host, c.Target, c.V6), w.poison(c.V6)...)
+					honest.Extra = append(extra, honest.Extra...)
+					return honest
+				})})
+			},
+		},
+		// ------------------------------------------------------------- referral --
+		{
+			Name: "referral-self", Family: "referral", Variants: []string{"self"},
+			Trigger: q(subTrigger, dns.TypeA),
+			Install: func(w *world, c *CaseSpec) {
+				installReferral(w, c, func(host string) []dns.RR { return []dns.RR{nsRR(zEvil, host, dns.ClassINET)} })
+			},
+		},
+		{
+			Name: "referral-upward", Family: "referral", Variants: []string{"tld", "root"},
+			Trigger: q(subTrigger, dns.TypeA),
+			Install: func(w *world, c *CaseSpec) {
+				owner := zTLD
+				if c.Variant == "root" {
+					owner = zRoot
+				}
+				installReferral(w, c, func(host string) []dns.RR { return []dns.RR{nsRR(owner, host, dns.ClassINET)} })
+			},
+		},
+		{
+			Name: "referral-sideways", Family: "referral", Variants: []string{"victim-apex", "victim-www"},
+			Trigger: q(subTrigger, dns.TypeA),
+			Install: func(w *world, c *CaseSpec) {
+				owner := zVictim
+				if c.Variant == "victim-www" {
+					owner = "www.victim.test."
+				}
+				installReferral(w, c, func(host string) []dns.RR { return []dns.RR{nsRR(owner, host, dns.ClassINET)} })
+			},
+		},
+		{
+			Name: "referral-mixed-owner", Family: "referral", Variants: []string{"valid-first", "victim-first", "tld-second", "class-mix"},
+			Trigger: q(subTrigger, dns.TypeA),
+			Install: func(w *world, c *CaseSpec) {
+				c.Target = "sink" // an accepted mixed referral must be visible at the sink
+				installReferral(w, c, func(host string) []dns.RR {
+					valid := nsRR("sub.evil.test.", host, dns.ClassINET)
+					switch c.Variant {
+					case "victim-first":
+						return []dns.RR{nsRR(zVictim, host, dns.ClassINET), valid}
+					case "tld-second":
+						return []dns.RR{valid, nsRR(zTLD, host, dns.ClassINET)}
+					case "class-mix":
+						return []dns.RR{valid, nsRR("sub.evil.test.", "sink2-evil-marker.evil.test.", dns.ClassCHAOS)}
+					}
+					return []dns.RR{valid, nsRR(zVictim, host, dns.ClassINET)}
+				})
+			},
+		},
+		{
+			Name: "referral-other-class", Family: "referral", Variants: []string{"chaos", "hesiod"},
+			Trigger: q(subTrigger, dns.TypeA),
+			Install: func(w *world, c *CaseSpec) {
+				c.Target = "sink"
+				class := uint16(dns.ClassCHAOS)
+				if c.Variant == "hesiod" {
+					class = dns.ClassHESIOD
+				}
+				installReferral(w, c, func(host string) []dns.RR { return []dns.RR{nsRR("sub.evil.test.", host, class)} })
+			},
+		},
+		{
+			Name: "referral-off-path", Family: "referral", Variants: []string{"sibling", "deeper-sibling"},
+			Trigger: q(subTrigger, dns.TypeA),
+			Install: func(w *world, c *CaseSpec) {
+				c.Target = "sink"
+				owner := "other.evil.test."
+				if c.Variant == "deeper-sibling" {
+					owner = "x.sub.evil.test."
+				}
+				installReferral(w, c, func(host string) []dns.RR { return []dns.RR{nsRR(owner, host, dns.ClassINET)} })
+			},
+		},
+		// ----------------------------------------------------------------- glue --
+		{
+			Name: "glue-out-of-zone", Family: "glue", Variants: []string{"victim-ns", "tld-ns", "victim-new"},
+			Trigger: q(subTrigger, dns.TypeA),
+			Install: func(w *world, c *CaseSpec) {
+				host := "ns1.victim.test."
+				switch c.Variant {
+				case "tld-ns":
+					host = "ns1.test."
+				case "victim-new":
+					host = "gluehost.victim.test."
+				}
+				onAll(w, authsim.Rule{Name: "*.sub.evil.test.", Action: authsim.Tamper(c.Label, func(q, _ *dns.Msg) *dns.Msg {
+					return referral(q, []dns.RR{nsRR("sub.evil.test.", host, dns.ClassINET)}, glueFor(host, "sink", c.V6))
+				})})
+			},
+		},
+		{
+			Name: "glue-loopback", Family: "glue", Variants: []string{"127.0.0.1", "127.0.0.53", "::1", "::ffff:127.0.0.1"},
+			NeedV6:  func(v string) bool { return v == "::1" || v == "::ffff:127.0.0.1" },
+			Trigger: q(subTrigger, dns.TypeA),
+			Install: func(w *world, c *CaseSpec) { installUnusableGlue(w, c, c.Variant) },
+		},
+		{
+			// "every": EVERY non-loopback address of this host's interfaces (both
+			// families, link-local included, IPv4 also in its ::ffff: AAAA form), one
+			// NS host each, alternately as referral glue and as the authoritative
+			// answer to the resolver's own NS-address lookup, next to one usable NS.
+			Name: "glue-local-interface", Family: "glue", Variants: []string{"v4", "v6", "every"},
+			NeedV6:  func(v string) bool { return v != "v4" },
+			Trigger: q(subTrigger, dns.TypeA),
+			Install: func(w *world, c *CaseSpec) {
+				if c.Variant == "every" {
+					installEveryLocalAddr(w, c)
+					return
+				}
+				addr := ""
+				switch {
+				case c.Variant == "v4" && w.local4 != nil:
+					addr = w.local4.String()
+				case c.Variant == "v6" && w.local6 != nil:
+					addr = w.local6.String()
+				}
+				if addr == "" {
+					c.Note = "no local interface address of that family: loopback used"
+					addr = "127.0.0.1"
+					if c.Variant == "v6" {
+						addr = "::1"
+					}
+				}
+				installUnusableGlue(w, c, addr)
+			},
+		},
+		{
+			Name: "glue-extra-additional", Family: "glue", Variants: []string{"poison"},
+			Trigger: q(subTrigger, dns.TypeA),
+			Install: func(w *world, c *CaseSpec) {
+				var sent atomic.Int32
+				host := "ns.sub.evil.test."
+				onAll(w, authsim.Rule{Name: "*.sub.evil.test.",
+					Match: func(p *authsim.Packet) bool { return p.QNameL != host && sent.Add(1) == 1 },
+					Action: authsim.Tamper(c.Label, func(q, _ *dns.Msg) *dns.Msg {
+						// a VALID referral (in-bailiwick NS host, glue = the evil
+						// server's real address) whose additional section also
+						// carries records nobody asked for
+						return referral(q, []dns.RR{nsRR("sub.evil.test.", host, dns.ClassINET)},
+							append(glueFor(host, "evil", c.V6), w.poison(c.V6)...))
+					})})
+			},
+		},
+		// ------------------------------------------- provisional delegation window --
+		{
+			// A PARTIALLY glued referral: pg.evil.test. NS ns1 (glue) + ns2 (in-zone,
+			// no glue). While the resolver looks up ns2's address the delegation is
+			// only provisionally stored. The adversary (a) appends out-of-zone
+			// records to the answer of that very NS-address sub-query and (b) serves
+			// a second client query arriving inside the window (held open by a gate
+			// on the sub-query's reply) an answer with an out-of-zone tail.
+			Name: "glue-partial-provisional", Family: "glue", Unsigned: true,
+			Variants: []string{"foreign-rrset", "cname-poison", "prepend"},
+			Trigger:  q("host."+pgZone, dns.TypeA),
+			Install:  installPartialGlue,
+			Attack:   attackPartialGlue,
+		},
+		// ------------------------------------------------- deep cached delegation --
+		{
+			// The resolution STARTS from the cached delegation of the attacker's deep
+			// zone a.b.corp.test. (delegated two labels below honest corp.test.) and
+			// gets a further referral whose NS host lies outside a.b.corp.test., with
+			// glue pointing at the sink.
+			Name: "deep-cached-start", Family: "glue", Deep: true, SigVariant: true,
+			Variants: deepVariants,
+			QMin:     deepQMin,
+			Trigger:  q("h.x."+zDeep, dns.TypeA),
+			Install:  installDeep,
+			Attack:   attackDeepStart,
+		},
+		{
+			// Same referral, but the resolution walks through corp.test. and JUMPS to
+			// the cached delegation (Resolver.resolveWithCachedNameservers): the
+			// honest parent's referral is held at a gate while another client query
+			// caches a.b.corp.test.
+			Name: "deep-cached-jump", Family: "glue", Deep: true, SigVariant: true,
+			Variants: deepVariants,
+			QMin:     deepQMin,
+			Trigger:  q("h.x."+zDeep, dns.TypeA),
+			Install:  installDeep,
+			Attack:   attackDeepJump,
+		},
+	}
 }
 
 func wrongQuestionReply(w *world, variant string, q *dns.Msg) *dns.Msg {
@@ -499,3 +569,347 @@ func installUnusableGlue(w *world, c *CaseSpec, addr string) {
 		return referral(q, []dns.RR{nsRR("sub.evil.test.", host, dns.ClassINET)}, []dns.RR{addrRR(host, addr)})
 	})})
 }
+
+// ---------------------------------------------------------------------------
+// glue-local-interface/every
+
+func installEveryLocalAddr(w *world, c *CaseSpec) {
+	zone := "sub.evil.test."
+	type nsHost struct {
+		name string
+		rr   dns.RR
+		glue bool
+	}
+	var hosts []nsHost
+	var texts []string
+	add := func(text string) {
+		i := len(hosts)
+		h := nsHost{name: fmt.Sprintf("nsl%d.%s", i, zone), glue: i%2 == 0}
+		h.rr = addrRR(h.name, text)
+		hosts = append(hosts, h)
+		texts = append(texts, text)
+	}
+	for _, a := range allLocalInterfaceAddrs() {
+		add(a.String())
+		if a.Is4() {
+			add("::ffff:" + a.String())
+		}
+	}
+	if len(hosts) == 0 {
+		c.Note = "no non-loopback interface address on this host: loopback used"
+		add("127.0.0.1")
+		add("::1")
+	}
+	c.Addr = strings.Join(texts, ",")
+	ok := "ns-ok." + zone
+	ns := []dns.RR{nsRR(zone, ok, dns.ClassINET)}
+	glue := glueFor(ok, "evil", false)
+	for _, h := range hosts {
+		ns = append(ns, nsRR(zone, h.name, dns.ClassINET))
+		if h.glue {
+			glue = append(glue, h.rr)
+		}
+		h := h
+		// the authoritative answer to the resolver's own address lookup for the host
+		onAll(w, authsim.Rule{Name: h.name, Action: authsim.Tamper(c.Label+":addr", func(q, _ *dns.Msg) *dns.Msg {
+			m := replyTo(q, true)
+			if h.rr.Header().Rrtype == q.Question[0].Qtype {
+				m.Answer = []dns.RR{dns.Copy(h.rr)}
+			} else {
+				m.Ns = []dns.RR{&dns.SOA{Hdr: hdr(zEvil, dns.TypeSOA, 60), Ns: "ns1.evil.test.", Mbox: "h.evil.test.", Serial: 1, Refresh: 1, Retry: 1, Expire: 1, Minttl: 60}}
+			}
+			keepOPT(q, m)
+			return m
+		})})
+	}
+	onAll(w, authsim.Rule{Name: ok, Action: authsim.Tamper(c.Label+":addr-ok", func(q, _ *dns.Msg) *dns.Msg {
+		m := replyTo(q, true)
+		switch q.Question[0].Qtype {
+		case dns.TypeA:
+			m.Answer = []dns.RR{addrRR(ok, addrEvil4)}
+		case dns.TypeAAAA:
+			m.Answer = []dns.RR{addrRR(ok, addrEvil6)}
+		}
+		keepOPT(q, m)
+		return m
+	})})
+	var referred atomic.Int32
+	onAll(w, authsim.Rule{Name: "*." + zone,
+		// only the first question is referred: afterwards the same server is
+		// asked as the child zone's (usable) nameserver and answers from its data
+		Match: func(p *authsim.Packet) bool { return referred.Add(1) == 1 },
+		Action: authsim.Tamper(c.Label, func(q, _ *dns.Msg) *dns.Msg {
+			return referral(q, ns, glue)
+		})})
+}
+
+// ---------------------------------------------------------------------------
+// glue-partial-provisional
+
+const (
+	pgZone = "pg.evil.test."
+	pgNS1  = "ns1.pg.evil.test."
+	pgNS2  = "ns2.pg.evil.test."
+	pgT2   = "www2.pg.evil.test."
+)
+
+// neutral is a record the attacker may legitimately publish inside his zone
+// (no evil marker).
+func neutral(owner string, t uint16) dns.RR {
+	switch t {
+	case dns.TypeAAAA:
+		return addrRR(owner, "fd66::1")
+	case dns.TypeA:
+		return addrRR(owner, "10.66.0.1")
+	}
+	return &dns.TXT{Hdr: hdr(owner, dns.TypeTXT, 60), Txt: []string{"in-zone"}}
+}
+
+func installPartialGlue(w *world, c *CaseSpec) {
+	g := authsim.NewGate()
+	w.gate = g
+	ns2addr4, ns2addr6 := addrEvil4, addrEvil6
+	if w.spec.TwoEvil {
+		ns2addr4, ns2addr6 = addrEvilB4, addrEvilB6
+	}
+	// (a) the NS-address sub-query for the glue-less in-zone host: the correct
+	// address plus an out-of-zone tail (victim names, sink addresses). The reply
+	// is held at the gate: the delegation stays provisional until Release.
+	ns2 := func(q, _ *dns.Msg) *dns.Msg {
+		m := replyTo(q, true)
+		switch q.Question[0].Qtype {
+		case dns.TypeA:
+			m.Answer = []dns.RR{addrRR(pgNS2, ns2addr4)}
+		case dns.TypeAAAA:
+			m.Answer = []dns.RR{addrRR(pgNS2, ns2addr6)}
+		}
+		if len(m.Answer) == 0 {
+			m.Ns = []dns.RR{&dns.SOA{Hdr: hdr(zEvil, dns.TypeSOA, 60), Ns: "ns1.evil.test.", Mbox: "h.evil.test.", Serial: 1, Refresh: 1, Retry: 1, Expire: 1, Minttl: 60}}
+		} else if c.Variant == "prepend" {
+			m.Answer = append(w.poison(c.V6), m.Answer...)
+		} else {
+			m.Answer = append(m.Answer, w.poison(c.V6)...)
+		}
+		keepOPT(q, m)
+		return m
+	}
+	onAll(w, authsim.Rule{Name: pgNS2, Type: dns.TypeA, Action: authsim.Action{Label: c.Label + ":ns2-addr", Gate: g, Tamper: ns2}})
+	onAll(w, authsim.Rule{Name: pgNS2, Action: authsim.Action{Label: c.Label + ":ns2-addr6", Tamper: ns2}})
+	onAll(w, authsim.Rule{Name: pgNS1, Action: authsim.Tamper(c.Label+":ns1-addr", func(q, _ *dns.Msg) *dns.Msg {
+		m := replyTo(q, true)
+		switch q.Question[0].Qtype {
+		case dns.TypeA:
+			m.Answer = []dns.RR{addrRR(pgNS1, addrEvil4)}
+		case dns.TypeAAAA:
+			m.Answer = []dns.RR{addrRR(pgNS1, addrEvil6)}
+		}
+		keepOPT(q, m)
+		return m
+	})})
+	trigger, _ := c.trigger()
+	onAll(w, authsim.Rule{Name: "*." + pgZone, Action: authsim.Tamper(c.Label, func(q, _ *dns.Msg) *dns.Msg {
+		name := zm.Canon(q.Question[0].Name)
+		qt := q.Question[0].Qtype
+		// until the resolver has asked for ns2's address, the trigger's path is
+		// referred to the child zone; everything else (and everything later) is
+		// answered as the child zone's server
+		if g.Waiting() == 0 && (name == pgZone || name == trigger) {
+			return referral(q, []dns.RR{nsRR(pgZone, pgNS1, dns.ClassINET), nsRR(pgZone, pgNS2, dns.ClassINET)}, glueFor(pgNS1, "evil", c.V6))
+		}
+		m := replyTo(q, true)
+		keepOPT(q, m)
+		switch c.Variant {
+		case "cname-poison":
+			// an in-zone alias (his to publish) to a victim name, "resolved" in
+			// the same message
+			m.Answer = []dns.RR{&dns.CNAME{Hdr: hdr(q.Question[0].Name, dns.TypeCNAME, 60), Target: "www.victim.test."},
+				w.evilRR("www.victim.test.", qt)}
+		case "prepend":
+			m.Answer = append(w.poison(c.V6), neutral(q.Question[0].Name, qt))
+		default:
+			m.Answer = append([]dns.RR{neutral(q.Question[0].Name, qt)}, w.poison(c.V6)...)
+		}
+		return m
+	})})
+}
+
+func attackPartialGlue(cr *caseRun) (question, *dns.Msg) {
+	g := cr.w.gate
+	defer g.Release()
+	name, t := cr.c.trigger()
+	q1 := randFlags(cr.rng, name, t)
+	// the zone is unsigned, so the resolver's NS-address sub-query runs with
+	// CD=1: a CD=1 client shares its delegation bucket (the sub-query then starts
+	// from the provisional entry), a CD=0 client does not
+	q1.CD = cr.rng.IntN(2) == 0
+	h := cr.start(q1)
+	// the window: the resolver's sub-query for ns2's address has reached the
+	// evil server (the provisional delegation is stored before it is sent)
+	waitUntil(func() bool { return g.Waiting() > 0 || h.finished() })
+	if g.Waiting() > 0 && !h.finished() {
+		cr.r.Count("provisional_windows_opened", 1)
+		// a second client inside the window, same CD bucket as the first
+		q2 := randFlags(cr.rng, pgT2, dns.TypeA)
+		q2.CD = q1.CD
+		from2 := cr.w.u.Log.Len()
+		reply2, _ := cr.ask(q2)
+		stillOpen := !h.finished()
+		cr.judgeTrigger("attack", q2, reply2, from2)
+		cr.dbg("attack/window", q2, reply2, from2)
+		tailed := 0
+		for _, p := range cr.w.u.Log.Since(from2) {
+			if p.QNameL == pgT2 && p.Action == cr.c.Label && strings.Contains(p.Outcome, "answered") {
+				tailed++
+			}
+		}
+		if stillOpen && tailed > 0 {
+			cr.r.Count("provisional_window_client_answers_with_foreign_tail", 1)
+		}
+	} else {
+		cr.r.Count("provisional_window_not_opened", 1)
+	}
+	g.Release()
+	reply1 := h.wait()
+	sub := 0
+	for _, p := range cr.w.u.Log.Since(h.from) {
+		if p.QNameL == pgNS2 && strings.HasSuffix(p.Action, ":ns2-addr") && strings.Contains(p.Outcome, "answered") {
+			sub++
+		}
+	}
+	if sub > 0 {
+		cr.r.Count("ns_address_subquery_answers_with_foreign_tail", 1)
+	}
+	cr.judgeTrigger("attack", q1, reply1, h.from)
+	cr.dbg("attack", q1, reply1, h.from)
+	cr.sinkCheck("attack")
+	return q1, reply1
+}
+
+// ---------------------------------------------------------------------------
+// deep-cached-start / deep-cached-jump
+
+// The NS host named by the deep zone's referral (always OUTSIDE a.b.corp.test.):
+//
+//	sibling-b       ns.sib.b.corp.test.   existing honest name of corp.test., sharing b.corp.test.
+//	sibling-b-new   ghost.b.corp.test.    non-existent name of corp.test., sharing b.corp.test.
+//	parent          ns1.corp.test.        the honest parent's own nameserver
+//	victim          ns1.victim.test.      another zone's nameserver
+var deepVariants = []string{"sibling-b", "sibling-b-new", "parent", "victim", "sibling-b/qmin"}
+
+func deepQMin(v string) (int, bool) {
+	if strings.HasSuffix(v, "/qmin") {
+		return 5, true
+	}
+	return 0, true
+}
+
+func deepHost(variant string) string {
+	switch strings.TrimSuffix(variant, "/qmin") {
+	case "sibling-b-new":
+		return "ghost.b.corp.test."
+	case "parent":
+		return "ns1.corp.test."
+	case "victim":
+		return "ns1.victim.test."
+	}
+	return sibNS
+}
+
+const (
+	deepWarmName = "w.a.b.corp.test."
+	deepCut      = "x." + zDeep
+)
+
+func installDeep(w *world, c *CaseSpec) {
+	host := deepHost(c.Variant)
+	if host != sibNS {
+		// only for the existing honest host is a later consequence observable
+		// without the sink (partner.test. is served through that host's address)
+		c.Target = "sink"
+	}
+	onAll(w, authsim.Rule{Name: "*." + deepCut, Action: authsim.Tamper(c.Label, func(q, _ *dns.Msg) *dns.Msg {
+		return referral(q, []dns.RR{nsRR(deepCut, host, dns.ClassINET)}, glueFor(host, c.Target, c.V6))
+	})})
+	if c.Kind == "deep-cached-jump" {
+		// the honest parent is not tampered with: its (honest) referral for the
+		// trigger's qtype is merely delayed until the harness releases the gate
+		w.gate = authsim.NewGate()
+		_, t := c.trigger()
+		w.corpSrv.AddRule(authsim.Rule{Name: "*." + zDeep, Type: t, Action: authsim.Action{Label: "hold-honest-referral", Gate: w.gate}})
+	}
+}
+
+// deepWarm resolves a name of the deep zone so that its delegation (from
+// corp.test., two labels down) is in the delegation cache, in q's CD bucket.
+func (cr *caseRun) deepWarm(cd bool) {
+	q := question{Name: deepWarmName, Type: dns.TypeTXT, EDNS: true, DO: true, CD: cd}
+	reply, from := cr.ask(q)
+	cr.dbg("attack/warm-deep", q, reply, from)
+	if reply != nil && reply.Rcode == dns.RcodeSuccess && len(reply.Answer) > 0 {
+		cr.r.Count("deep_delegation_warmed", 1)
+	}
+}
+
+func attackDeepStart(cr *caseRun) (question, *dns.Msg) {
+	name, t := cr.c.trigger()
+	q2 := randFlags(cr.rng, name, t)
+	cr.deepWarm(q2.CD)
+	reply, from := cr.ask(q2)
+	// started at the cached cut: the deep zone's server is the first one asked
+	// about the name (no honest ancestor was consulted on the way down)
+	direct := false
+	for _, p := range cr.w.u.Log.Since(from) {
+		if !zm.IsSub(zDeep, p.QNameL) {
+			continue
+		}
+		direct = p.Action == cr.c.Label
+		break
+	}
+	if direct {
+		cr.r.Count("deep_resolutions_started_at_cached_cut", 1)
+	}
+	cr.judgeTrigger("attack", q2, reply, from)
+	cr.dbg("attack", q2, reply, from)
+	cr.sinkCheck("attack")
+	return q2, reply
+}
+
+func attackDeepJump(cr *caseRun) (question, *dns.Msg) {
+	g := cr.w.gate
+	defer g.Release()
+	name, t := cr.c.trigger()
+	q2 := randFlags(cr.rng, name, t)
+	h := cr.start(q2)
+	// q2 has been referred by nobody yet: its question waits at the honest parent
+	waitUntil(func() bool { return g.Waiting() > 0 || h.finished() })
+	held := g.Waiting() > 0 && !h.finished()
+	before := cr.r.Counter("deep_delegation_warmed")
+	cr.deepWarm(q2.CD)
+	if held && !h.finished() && cr.r.Counter("deep_delegation_warmed") > before {
+		// the parent's referral reaches q2's resolution only now, with the
+		// delegation it names already cached by the other client
+		cr.r.Count("deep_jumps_to_cached_delegation", 1)
+		if cr.c.World.QMin == 0 {
+			cr.r.Count("deep_jumps_of_two_labels", 1)
+		}
+	} else {
+		cr.r.Count("deep_jump_window_missed", 1)
+	}
+	g.Release()
+	reply := h.wait()
+	cr.judgeTrigger("attack", q2, reply, h.from)
+	cr.dbg("attack", q2, reply, h.from)
+	cr.sinkCheck("attack")
+	return q2, reply
+}
+
+// waitUntil polls cond. The bound only keeps a wedged run from hanging; what
+// happened is read from the gate / packet log afterwards, never from the clock.
+func waitUntil(cond func() bool) {
+	deadline := time.Now().Add(20 * time.Second)
+	for !cond() && time.Now().Before(deadline) {
+		time.Sleep(200 * time.Microsecond)
+	}
+}
+
+var _ = netip.Addr{}
